@@ -63,7 +63,7 @@ fn gamma(a: f64) -> f64 {
             / ((std::f64::consts::PI * a).sin()
                 * s
                 * 1.860_382_734_205_265_7
-                * ((a - 10.400511) / std::f64::consts::E).powf(0.5 - a))
+                * ((11.400511 - a) / std::f64::consts::E).powf(0.5 - a))
     } else {
         s += 1.0514237858172197 / a;
         s += -3.456870972220_1625 / (a + 1.0);
@@ -76,6 +76,28 @@ fn gamma(a: f64) -> f64 {
         s += 4.633994733599057e-6 / (a + 8.0);
         s += -2.7199490848860772e-9 / (a + 9.0);
         s * 1.8603827342052657 * ((a + 10.400511) / std::f64::consts::E).powf(a - 0.5)
+    }
+}
+
+fn float_factorial(x: f64) -> f64 {
+    if x >= 0.0 {
+        if (x % 1.0) > 0.0 {
+            gamma(x + 1.0)
+        } else if x > 170.0 {
+            f64::INFINITY
+        } else {
+            let mut factorial_result = 1.0;
+            for i in 2..=(x as usize) {
+                #[cfg(feature = "verif_hooks")]
+                crate::verif_hooks::tick();
+                factorial_result *= i as f64;
+            }
+            factorial_result
+        }
+    } else if (x % 1.0) == 0.0 {
+        f64::NAN
+    } else {
+        gamma(x + 1.0)
     }
 }
 
@@ -248,10 +270,10 @@ pub fn eval(expr: Node) -> Result<Number, Box<dyn error::Error>> {
                         }
                         Ok(Number::Integer(factorial_result))
                     } else {
-                        Ok(Number::Float(gamma((n as f64) + 1.0)))
+                        Ok(Number::Float(float_factorial(n as f64)))
                     }
                 }
-                Number::Float(n) => Ok(Number::Float(gamma(n + 1.0))),
+                Number::Float(n) => Ok(Number::Float(float_factorial(n))),
             }
         }
         LambertW(expr) => {
